@@ -83,9 +83,17 @@ Fixpoint cud_assign (g : N) (rows : list row) : N * list row * plan * list (N * 
         let '(g', t', p, rep) := cud_assign (u64 (g + 1)) t in (g', set_id r g :: t', (r_id r, g) :: p, (r_id r, g) :: rep)
   end.
 
+(* eventType.regenerateIDs, proposed repair of F43: before the first pass every explicit (not raw, not null) ID of the
+   argument rows and the creates is fed to UpdateOnSync.  [pp] = "that pre-pass exists" (as written: no) *)
+Definition presync_gen (pp : bool) (g : N) (rows : list row) : N :=
+  if pp then
+    fold_left (fun a r => if is_raw (r_id r) || (r_id r =? 0) then a else update_on_sync a (r_id r)) rows g
+  else g.
+Definition presync := presync_gen c04_sync_prepass.
+
 (* [ps] = "the CUD pass starts from the argument's plan" (before the repair of F12: no, two independent plans) *)
 Definition regenerate_gen (au ps : bool) (g : N) (ev : event) : N * event * list (N * N) :=
-  let '(g1, arg1, pa) := arg_assign au g (e_arg ev) in
+  let '(g1, arg1, pa) := arg_assign au (presync g (e_arg ev ++ e_creates ev)) (e_arg ev) in
   let '(g2, cr1, pc, rep) := cud_assign g1 (e_creates ev) in
   let p := (if ps then pa else []) ++ pc in
   (g2, mkEv (e_sync ev) (map (rewrite_arg pa) arg1) (map (map_row (sub_cud p)) cr1) (map (map_row (sub_cud p)) (e_updates ev)),
@@ -191,7 +199,10 @@ Fixpoint agrees_from (st : state) (t : trace) : bool :=
        | Accepted ev' rep =>
            o_ok o && list_eqb pair_eqb (sort_pairs rep) (o_newids o)
            && rows_eqb (e_arg ev') (o_arg o) && rows_eqb (e_creates ev') (o_creates o)
-           && rows_eqb (e_updates ev') (o_updates o) && rows_eqb (e_creates ev') (o_recs o)
+           && rows_eqb (e_updates ev') (o_updates o)
+           (* the records as applied; when two creates of the event carry one ID (F43) IRecords.Apply refuses
+              the event ("sequences violation", C05's subject) and what it leaves behind is not modelled *)
+           && (negb (nodupb (ids (e_creates ev'))) || rows_eqb (e_creates ev') (o_recs o))
        end) && agrees_from (upd st ws w') rest
   end.
 Definition agrees (t : trace) : bool := agrees_from st_init t.
@@ -259,7 +270,9 @@ Definition subst_ok (ev : event) (o : obs) : bool :=
    stored in this workspace before (seen = every argument/create ID logged earlier, explicit or generated) *)
 Definition fresh_ok (seen : list N) (o : obs) : bool :=
   let gen := map snd (o_newids o) in
-  forallb (fun x => c04_first_user_id <=? x) gen && nodupb gen && forallb (fun x => negb (memb x seen)) gen.
+  forallb (fun x => c04_first_user_id <=? x) gen && nodupb gen && forallb (fun x => negb (memb x seen)) gen
+  (* and no two rows written by the event share a storage ID (explicit, generated or singleton) *)
+  && nodupb (ids (o_creates o) ++ ids (o_arg o)).
 
 (* a new (not synced) event cannot bring storage IDs of the client's choosing into the log: every ID stored for
    an argument row or a create is one the generator just handed out (so, by fresh_ok, a user ID that the
